@@ -276,11 +276,30 @@ pub fn run(case: &Value) -> Value {
 
     let has_b = case["before"].as_bool().unwrap_or(false);
     let has_a = case["after"].as_bool().unwrap_or(false);
-    let evs = match (has_b, has_a) {
-        (false, false) => collect(base, feature, cli),
-        (true, false) => collect(base.before(before), feature, cli),
-        (false, true) => collect(base.after(after), feature, cli),
-        (true, true) => collect(base.before(before).after(after), feature, cli),
+    // the builder chain in different orders: every builder method must carry the other settings over.
+    // `chain` 1: `.after()` before `.before()`; `which` 1 / 2: a classifier (classifying like the default one) installed
+    // first / last in the chain
+    fn classify(f: &gherkin::Feature, r: Option<&gherkin::Rule>, s: &gherkin::Scenario) -> runner::basic::ScenarioType {
+        let serial = s.tags.iter().chain(r.iter().flat_map(|r| &r.tags)).chain(&f.tags).any(|t| t == "serial");
+        if serial { runner::basic::ScenarioType::Serial } else { runner::basic::ScenarioType::Concurrent }
+    }
+    let chain = case["chain"].as_u64().unwrap_or(0);
+    let which = case["which"].as_u64().unwrap_or(0);
+    let evs = match (has_b, has_a, chain, which) {
+        (false, false, _, 0) => collect(base, feature, cli),
+        (false, false, _, _) => collect(base.which_scenario(classify), feature, cli),
+        (true, false, _, 0) => collect(base.before(before), feature, cli),
+        (true, false, _, 1) => collect(base.which_scenario(classify).before(before), feature, cli),
+        (true, false, _, _) => collect(base.before(before).which_scenario(classify), feature, cli),
+        (false, true, _, 0) => collect(base.after(after), feature, cli),
+        (false, true, _, 1) => collect(base.which_scenario(classify).after(after), feature, cli),
+        (false, true, _, _) => collect(base.after(after).which_scenario(classify), feature, cli),
+        (true, true, 0, 0) => collect(base.before(before).after(after), feature, cli),
+        (true, true, 0, 1) => collect(base.which_scenario(classify).before(before).after(after), feature, cli),
+        (true, true, 0, _) => collect(base.before(before).after(after).which_scenario(classify), feature, cli),
+        (true, true, _, 0) => collect(base.after(after).before(before), feature, cli),
+        (true, true, _, 1) => collect(base.which_scenario(classify).after(after).before(before), feature, cli),
+        (true, true, _, _) => collect(base.after(after).before(before).which_scenario(classify), feature, cli),
     };
 
     let during = HOOK_CALLS.load(Ordering::SeqCst);
